@@ -299,6 +299,13 @@ fn big_frame_wh(o: &Opts, rng: &mut Rng, w: usize, h: usize) -> (Vec<[f32; 3]>, 
         px[n - 1 - k] = [t, 0.97 - t, 0.31 + 0.5 * t];
         px[k] = [0.97 - t, 0.31 + 0.5 * t, t];
     }
+    // a few samples far outside [0,1] share the frame with the judged ones (per-frame statistics, tables stretched over
+    // the frame's own range): they are outside the properties' domain and TLC skips them
+    if n > 4096 {
+        px[n / 3] = [255.0, 0.5, -3.0];
+        px[n / 2 + 1] = [0.25, 1.0e6, 0.75];
+        px[2 * n / 3 + 5] = [-1000.0, -0.0, 65504.0];
+    }
     let mut idx: std::collections::BTreeSet<usize> = crate::util::probe_indices(n, w, rng).into_iter().collect();
     for k in 0..16 {
         idx.insert(k);
@@ -419,16 +426,20 @@ pub fn gen_c03(sh: &mut Shards, o: &Opts) -> serde_json::Value {
     for (ti, &t) in CLASS_REPS.iter().enumerate() {
         for (di, dir) in ["lin", "gam"].iter().enumerate() {
             let mut rng = Rng::new(o.seed, 0x0303_b160 + (ti * 2 + di) as u64);
-            let (px, w, h, idx) = big_frame(o, &mut rng, ti + di);
-            emit_tf_probe(sh, "tf", t, dir, &px, w, h, &idx, apply(t, dir, &px, w, h));
+            let (px, w, h, mut idx) = big_frame(o, &mut rng, ti + di);
+            let whole = apply(t, dir, &px, w, h);
+            crate::util::screen_idx(&mut idx, &whole, &px, &|c, cw, ch| apply(t, dir, c, cw, ch));
+            emit_tf_probe(sh, "tf", t, dir, &px, w, h, &idx, whole);
             samples += 3 * idx.len() as u64;
             // more than 2^20 pixels (full HD, single row, single column, 2049x1025): every curve and direction gets one
             // shape per run (all four in thorough; every fifth pair in the thinned tier C20 uses)
             let shapes: Vec<usize> = if o.thorough { vec![0, 1, 2, 3] } else if o.mini && (ti + di) % 5 != (o.seed as usize) % 5 { vec![] } else { vec![ti + di + o.seed as usize] };
             for k in shapes {
                 let (hw, hh) = crate::util::huge(k);
-                let (px, w, h, idx) = big_frame_wh(o, &mut rng, hw, hh);
-                emit_tf_probe(sh, "tf", t, dir, &px, w, h, &idx, apply(t, dir, &px, w, h));
+                let (px, w, h, mut idx) = big_frame_wh(o, &mut rng, hw, hh);
+                let whole = apply(t, dir, &px, w, h);
+                crate::util::screen_idx(&mut idx, &whole, &px, &|c, cw, ch| apply(t, dir, c, cw, ch));
+                emit_tf_probe(sh, "tf", t, dir, &px, w, h, &idx, whole);
                 samples += 3 * idx.len() as u64;
             }
         }
@@ -513,14 +524,18 @@ pub fn gen_c10(sh: &mut Shards, o: &Opts) -> serde_json::Value {
     }
     for (ti, &t) in TC_SUP.iter().enumerate() {
         let mut rng = Rng::new(o.seed, 0x1010_b160 + ti as u64);
-        let (px, w, h, idx) = big_frame(o, &mut rng, ti);
-        emit_tf_probe(sh, "tfrt", t, "rt", &px, w, h, &idx, apply(t, "lin", &px, w, h).and_then(|m| apply(t, "gam", &m, w, h)));
+        let (px, w, h, mut idx) = big_frame(o, &mut rng, ti);
+        let whole = apply(t, "lin", &px, w, h).and_then(|m| apply(t, "gam", &m, w, h));
+        crate::util::screen_idx(&mut idx, &whole, &px, &|c, cw, ch| apply(t, "lin", c, cw, ch).and_then(|m| apply(t, "gam", &m, cw, ch)));
+        emit_tf_probe(sh, "tfrt", t, "rt", &px, w, h, &idx, whole);
         samples += 3 * idx.len() as u64;
         let shapes: Vec<usize> = if o.thorough { vec![0, 1, 2, 3] } else if o.mini && ti % 5 != (o.seed as usize) % 5 { vec![] } else { vec![ti + 1 + o.seed as usize] };
         for k in shapes {
             let (hw, hh) = crate::util::huge(k);
-            let (px, w, h, idx) = big_frame_wh(o, &mut rng, hw, hh);
-            emit_tf_probe(sh, "tfrt", t, "rt", &px, w, h, &idx, apply(t, "lin", &px, w, h).and_then(|m| apply(t, "gam", &m, w, h)));
+            let (px, w, h, mut idx) = big_frame_wh(o, &mut rng, hw, hh);
+            let whole = apply(t, "lin", &px, w, h).and_then(|m| apply(t, "gam", &m, w, h));
+            crate::util::screen_idx(&mut idx, &whole, &px, &|c, cw, ch| apply(t, "lin", c, cw, ch).and_then(|m| apply(t, "gam", &m, cw, ch)));
+            emit_tf_probe(sh, "tfrt", t, "rt", &px, w, h, &idx, whole);
             samples += 3 * idx.len() as u64;
         }
         // echo images: each pixel followed by the library's own result for it and by repeats (a shortcut that compares a
